@@ -7,9 +7,12 @@ Three parts (DESIGN §4 C01):
    with the hand-maintained map coq/PANIC_MAP.json (-> coq/gen/PanicMap.v); the
    obligation C01_every_panic_site_discharged is a vm_compute check that every
    site has an entry. Python additionally checks that every cited theorem is an
-   obligation of the cited property.
-2. The assembly theorem C01_pipeline_total and the theorems about the literal
-   actions and split_string (coq/model/Pipeline.v, coq/proofs/PipelineProofs.v).
+   obligation of the cited property, and Coq resolves every citation
+   (coq/gen/PanicCites<Cnn>.v: one `Check` per cited theorem, compiled in run()).
+2. The theorems about the literal actions and split_string (coq/model/Pipeline.v,
+   coq/proofs/PipelineProofs.v), the chain of the actual mirrors
+   (coq/model/PipelineMirrors.v) with its composition theorem
+   C01_pipeline_mirrors_never_panic, and the generic assembly C01_pipeline_total.
 3. run(ctx): engine `totality` — the real binary under a watchdog and an
    address-space limit on grammar-generated programs, byte-level mutants,
    arbitrary bytes and adversarial shapes, with all curves / levels / output
@@ -1143,9 +1146,13 @@ def run(ctx, proofs):
     ctx.assumptions += [
         "observed, not proved: the LALRPOP automaton and lexer, clap, codespan-reporting/termcolor, serde_sarif, std::fs, "
         "allocation and stack depth, wall-clock time (20 s watchdog, 4 GB address-space limit)",
-        "stage totality in C01_pipeline_total is a premise per stage, discharged by the cited theorems of C05, C10, C14, "
-        "C15, C16, C18, C19, C03 about their own mirrors; stages without such a theorem yet (lifting C12/C13, SSA "
-        "construction, propagation loop, the analysis passes) are premises backed by observation only",
+        "C01_pipeline_mirrors_never_panic composes the mirrors of include resolution, desugaring, lifting, dominator tree, "
+        "SSA construction and propagation; its hypotheses about the two unmirrored stages in between (the LALRPOP parser: "
+        "wf_template and ast_init_ok of its output; IR lifting of single statements: unversioned, claim-free statements "
+        "assigning declared locals) and about the SSA output (unique local definitions) are decidable but observed only "
+        "(C12/C13/C14/C18/C20 evaluate them on the real trees and graphs); the analysis passes and the output stage are not "
+        "part of the chain and remain premises of C01_pipeline_total; the mirrors are tied to the code by the "
+        "correspondence runs of their own properties",
         "the panic-site scanner is syntactic (regular expressions over the source with test modules removed); "
         "macro-generated or trait-dispatched panics inside dependencies are outside the inventory",
         "stdout is open (a closed stdout makes `expect(\"failed to write ...\")` fire; run-time environment, DESIGN §5.3)",
